@@ -22,6 +22,7 @@ Conventions
 * IEEE NaN is outside the model (`np.isnan(error)` is `false` over a field).
 -/
 import Mathlib.Data.Matrix.Mul
+import Mathlib.Data.Matrix.Basic
 import Mathlib.Algebra.Order.Ring.Defs
 import Mathlib.Algebra.Order.Field.Basic
 import Mathlib.Algebra.Order.Ring.Abs
@@ -280,8 +281,11 @@ inductive StepError
   | convergenceError (r : Reason)
   /-- `NonReversibleStepError` from the reverse check -/
   | nonReversible
-  /-- `ValueError`/`LinAlgError` outside a solver, or the solver's `UnboundLocalError` -/
-  | otherError
+  /-- `ValueError`/`LinAlgError` raised outside a solver: `Integrator.step` re-raises them as
+  `IntegratorError` -/
+  | integratorError
+  /-- the solver's `UnboundLocalError` for `max_iters = 0` (escapes as it is) -/
+  | unboundLocal
   deriving DecidableEq, Repr
 
 inductive StepOutcome (K : Type*) (n : Nat)
@@ -318,12 +322,12 @@ structure StepCfg (K : Type*) where
 def retract (S : StepSys K n c) (C : StepCfg K) (dt : K) (pos mom : Vec K n) :
     Except StepError (Vec K n × Vec K n) :=
   match S.h2flow dt (pos, mom) with
-  | .error _ => .error .otherError
+  | .error _ => .error .integratorError
   | .ok (pos1, mom1) =>
     match solve C.kind S.toOracles C.tol C.maxIters C.maxLs dt pos1 mom1 pos with
     | .ok pos2 mom2 _ _ => .ok (pos2, mom2)
     | .convergenceError r _ _ => .error (.convergenceError r)
-    | .unboundLocal => .error .otherError
+    | .unboundLocal => .error .unboundLocal
 
 /-- the `for i in range(n_inner_step)` loop of `_step_b` -/
 def stepBLoop (S : StepSys K n c) (C : StepCfg K) (dt : K) :
@@ -335,10 +339,10 @@ def stepBLoop (S : StepSys K n c) (C : StepCfg K) (dt : K) :
     | .ok (pos1, mom1) =>
     -- `dh1_dpos` is pre-evaluated at the last inner step (a fault there escapes)
     match (if k = 0 then (S.dh1 pos1).map (fun _ => ()) else .ok ()) with
-    | .error _ => .error .otherError
+    | .error _ => .error .integratorError
     | .ok _ =>
     match projectCot S pos1 mom1 with
-    | .error _ => .error .otherError
+    | .error _ => .error .integratorError
     | .ok mom2 =>
     match retract S C (-dt) pos1 mom2 with
     | .error e => .error e
@@ -346,17 +350,18 @@ def stepBLoop (S : StepSys K n c) (C : StepCfg K) (dt : K) :
       if S.normP (vec (posBack.fn - pos.fn)) > C.revTol then .error .nonReversible
       else stepBLoop S C dt k pos1 mom2
 
-/-- `_step`: `A(t/2) ∘ B(t) ∘ A(t/2)` with `B` made of `nInner` projected sub-steps. -/
+/-- `Integrator.step` ∘ `_step`: `A(t/2) ∘ B(t) ∘ A(t/2)` with `B` made of `nInner` projected
+sub-steps; `ValueError`/`LinAlgError` from any sub-step become `IntegratorError`. -/
 def step (S : StepSys K n c) (C : StepCfg K) (nInner : Nat) (t : K) (pos mom : Vec K n) :
     StepOutcome K n :=
   match stepA S (t * (1 / 2)) pos mom with
-  | .error _ => .error .otherError
+  | .error _ => .error .integratorError
   | .ok (pos1, mom1) =>
   match stepBLoop S C (t / (nInner : K)) nInner pos1 mom1 with
   | .error e => .error e
   | .ok (pos2, mom2) =>
   match stepA S (t * (1 / 2)) pos2 mom2 with
-  | .error _ => .error .otherError
+  | .error _ => .error .integratorError
   | .ok (pos3, mom3) => .ok pos3 mom3
 
 end Solvers
@@ -369,7 +374,7 @@ ellipsoids, hyperboloids, … otherwise), the maximum norm, and a Gauss–Jordan
 result is *checked* (`A * X = 1` is decided) before it is handed out. -/
 
 section Exec
-variable [Field K] {n c : Nat}
+variable {K : Type} [Field K] {n c : Nat}
 
 structure Quadrics (K : Type*) (n c : Nat) where
   A : Vector (Mat K n n) c
@@ -378,15 +383,15 @@ structure Quadrics (K : Type*) (n c : Nat) where
 
 def Quadrics.constr (Q : Quadrics K n c) (q : Vec K n) : Vec K c :=
   Vector.ofFn fun k : Fin c =>
-    (1 / 2) * (q.fn ⬝ᵥ (vec ((Q.A[k.val]).fn *ᵥ q.fn)).fn) + (Q.B[k.val]).fn ⬝ᵥ q.fn + Q.d[k.val]
+    (1 / 2) * (q.fn ⬝ᵥ (vec (Mat.fn (Q.A[k.val]) *ᵥ q.fn)).fn) + Vec.fn (Q.B[k.val]) ⬝ᵥ q.fn + Q.d[k.val]
 
 def Quadrics.jacob (Q : Quadrics K n c) (q : Vec K n) : Mat K c n :=
-  Vector.ofFn fun k : Fin c => vec ((Q.A[k.val]).fn *ᵥ q.fn + (Q.B[k.val]).fn)
+  Vector.ofFn fun k : Fin c => vec (Mat.fn (Q.A[k.val]) *ᵥ q.fn + Vec.fn (Q.B[k.val]))
 
 /-- matrix-Hessian product of the quadrics (Hessians are the constant `A_k`, assumed symmetric):
 `mhp(m)_l = Σ_k Σ_j m[k,j] A_k[j,l]`. -/
 def Quadrics.mhp (Q : Quadrics K n c) (m : Mat K c n) : Vec K n :=
-  vec fun l => ∑ k : Fin c, ((m[k.val]).fn ᵥ* (Q.A[k.val]).fn) l
+  vec fun l => ∑ k : Fin c, (Vec.fn (m[k.val]) ᵥ* Mat.fn (Q.A[k.val])) l
 
 /-- `maximum_norm` -/
 def maxNorm [LinearOrder K] {m : Nat} (v : Vec K m) : K :=
@@ -431,7 +436,8 @@ theorem checkedInv_correct [DecidableEq K] {m : Nat} (A X : Mat K m m)
   unfold checkedInv at h
   split at h
   · cases h
-  · split_ifs at h with hc
+  · simp only at h
+    split_ifs at h with hc
     cases h
     exact hc
 
